@@ -51,16 +51,20 @@ ELEMS_GOOD = [1, "2", 3.0, True, b"4"]
 ELEMS_BAD = ["x", None, [1, 2], "1.5x", {"a": 1}]
 
 
-def seq_inputs(rng, n_random):
-    """lists of elements with every subset of positions offending (length <= 3) + random longer ones"""
+def seq_inputs(rng, n_random, elemT=int):
+    """lists of elements with every subset of positions offending (length <= 3) + random longer ones; good / bad decided by observing
+    each candidate alone under the element type"""
+    pool = ELEMS_GOOD + ELEMS_BAD + [7, "8", -1, 0, "-3", [1], ["x"], [1, "y"], "a", "ab"]
+    goods = [e for e in pool if not conv(elemT, e)[0]]
+    bads = [e for e in pool if conv(elemT, e)[0]]
     out = []
     for n in range(0, 4):
         for mask in itertools.product([False, True], repeat=n):
-            good = iter(ELEMS_GOOD)
-            bad = iter(ELEMS_BAD)
+            good = iter(goods * 2)
+            bad = iter(bads * 2)
             out.append([next(bad) if m else next(good) for m in mask])
     for _ in range(n_random):
-        out.append([rng.choice(ELEMS_BAD if rng.random() < 0.4 else ELEMS_GOOD + [7, "8"]) for _ in range(rng.randint(1, 6))])
+        out.append([rng.choice(bads if rng.random() < 0.4 else goods) for _ in range(rng.randint(1, 6))])
     return out
 
 
@@ -76,12 +80,20 @@ def container_cases(rng, thorough):
     import typing
     import utype
     from utype import Options
-    kinds = [("list", typing.List[int], list, "seq", True), ("set", typing.Set[int], set, "set", False),
-             ("fset", typing.FrozenSet[int], frozenset, "set", False), ("tuple", typing.Tuple[int, ...], tuple, "seq", True),
-             ("deque", typing.Deque[int], collections.deque, "seq", True)]
-    for name, T, mk, shape, indexable in kinds:
+    class PosInt(int, utype.Rule):
+        gt = 0
+    IntOrShort = utype.Rule.any_of(PosInt, utype.Rule.annotate(str, constraints=dict(max_length=1)))
+    kinds = [("list", typing.List[int], list, "seq", True, int), ("set", typing.Set[int], set, "set", False, int),
+             ("fset", typing.FrozenSet[int], frozenset, "set", False, int), ("tuple", typing.Tuple[int, ...], tuple, "seq", True, int),
+             ("deque", typing.Deque[int], collections.deque, "seq", True, int),
+             # element types that are themselves utype types: their errors go through the element's own context (nested containers are left
+             # out: the policy applies inside them as well, so an element observed alone under 'throw' says nothing about them)
+             ("list[PosInt]", typing.List[PosInt], list, "seq", True, PosInt), ("set[PosInt]", typing.Set[PosInt], set, "set", False, PosInt),
+             ("tuple[PosInt]", typing.Tuple[PosInt, ...], tuple, "seq", True, PosInt),
+             ("list[union]", typing.List[IntOrShort], list, "seq", True, IntOrShort)]
+    for name, T, mk, shape, indexable, elemT in kinds:
         T = utype.Rule.parse_annotation(annotation=T)
-        for elems in seq_inputs(rng, 60 if thorough else 8):
+        for elems in seq_inputs(rng, 60 if thorough else 8, elemT):
             if shape == "set":
                 elems = [e for e in elems if hashable(e)]
                 # a set keeps one of 1 / True / 1.0: avoid ==-equal elements so that positions stay distinguishable
@@ -92,11 +104,11 @@ def container_cases(rng, thorough):
                         uniq.append(e)
                 elems = uniq
             x = mk(elems)
-            ents = [entry(None, e, None, int) for e in x]
+            ents = [entry(None, e, None, elemT) for e in x]
             # converted elements that collide in a set make the element-wise view ambiguous: skip
             if shape == "set" and len({json.dumps(e["cv"], sort_keys=True) for e in ents if not e["voff"]}) < len([e for e in ents if not e["voff"]]):
                 continue
-            filtered = mk([e for e in x if not conv(int, e)[0]])
+            filtered = mk([e for e in x if not conv(elemT, e)[0]])
             for pi, pk, pv in policy_combos(rng, thorough):
                 opts = Options(invalid_items=pi, invalid_keys=pk, invalid_values=pv)
                 r = result_of(lambda: utype.type_transform(x, T, options=opts), shape)
